@@ -124,7 +124,12 @@ void task_group_context_impl::bind_to_impl(d1::task_group_context& ctx, thread_d
 
     // Condition below prevents unnecessary thrashing parent context's cache line
     if (ctx.my_parent->my_may_have_children.load(std::memory_order_relaxed) != d1::task_group_context::may_have_children) {
-        ctx.my_parent->my_may_have_children.store(d1::task_group_context::may_have_children, std::memory_order_relaxed); // full fence is below
+        ctx.my_parent->my_may_have_children.store(d1::task_group_context::may_have_children, std::memory_order_relaxed);
+        // The parent's cancellation state is read below. A thread that cancels the parent sets the state and then
+        // reads my_may_have_children to decide whether there is anything to propagate to, so the store above must be
+        // visible before the state is read: otherwise both sides can miss each other (the canceller skips the
+        // propagation and this context keeps a stale copy that no epoch change invalidates).
+        atomic_fence_seq_cst();
     }
     if (ctx.my_parent->my_parent) {
         // Even if this context were made accessible for state change propagation
